@@ -51,6 +51,24 @@ type tnode struct {
 	Map      *fmapSpec `json:",omitempty"` // workflow: mapping on the single incoming edge
 	JoinKeys []string  `json:",omitempty"` // workflow: fan-in, predecessor i is mapped ToField(JoinKeys[i])
 	Sub      *tspec    `json:",omitempty"` // a nested graph / chain / workflow
+
+	// Pre: the node stands for a small pipeline around one of the framework's own lambdas
+	// (typed_builtin_test.go): "tolist" = compose.ToList[In] -> consumer over []In;
+	// "msgparse" = producer In -> *schema.Message -> compose.MessageParser[Out];
+	// "msglist" = producer -> compose.ToList[*schema.Message] -> consumer over []*schema.Message.
+	// Para is the paradigm set of the last node of the pipeline, PrePara that of the message producer.
+	Pre     string `json:",omitempty"`
+	PrePara int    `json:",omitempty"`
+	MsgFrom string `json:",omitempty"` // "content" | "tool_call"
+	MsgPath string `json:",omitempty"` // ParseKeyPath of the parser: "", "w", "w.v"
+
+	// Conv: an identity node whose Transform form is schema.StreamReaderWithConvert over its input
+	// and whose convert function "panic"s / returns an "error" on the chunk that holds the trigger
+	// (typed_conv_test.go).
+	Conv      string `json:",omitempty"`
+	TrigByte  string `json:",omitempty"` // string chunks: the byte that triggers
+	TrigKey   string `json:",omitempty"` // map chunks: the key that triggers
+	TrigOther bool   `json:",omitempty"` // any other chunk (nil, pointer, struct): triggers or not
 }
 
 // effIn / effOut: the declared types as the surrounding graph sees them.
@@ -69,11 +87,17 @@ func (n *tnode) effOut() ty {
 }
 
 type tseg struct {
-	Kind       string // "node" | "par" | "branch"
+	// "switch" (workflow, typed_switch_test.go): the consumers Nodes read the predecessor's output
+	// over data-only inputs (WithNoDirectDependency, possibly field-mapped: tnode.Map), a branch on
+	// the predecessor (Sel == nil) or on a node Sel that follows it selects the one that runs.
+	Kind       string // "node" | "par" | "branch" | "switch"
 	Nodes      []*tnode
+	Sel        *tnode `json:",omitempty"`
 	CondTy     ty     `json:",omitempty"`
 	CondStream bool   `json:",omitempty"`
-	CondRule   string `json:",omitempty"` // "nil": nil-ish -> target 0, else target 1; "hash": by content
+	// "nil": nil-ish -> target 0, else target 1; "hash": by content; "type": the first target whose
+	// declared input type takes the dynamic value (a type switch), else target 0
+	CondRule string `json:",omitempty"`
 }
 
 type tspec struct {
@@ -115,6 +139,19 @@ func (s *tspec) render() string {
 				b.WriteString(n.render())
 			}
 			b.WriteString(")")
+		case "switch":
+			fmt.Fprintf(&b, "switch<%s,%s,stream=%v", sg.CondTy, sg.CondRule, sg.CondStream)
+			if sg.Sel != nil {
+				fmt.Fprintf(&b, ",on %s", sg.Sel.render())
+			}
+			b.WriteString(">(")
+			for i, n := range sg.Nodes {
+				if i > 0 {
+					b.WriteString(" | ")
+				}
+				b.WriteString(n.render())
+			}
+			b.WriteString(")")
 		}
 	}
 	if s.EndMap != nil {
@@ -139,6 +176,15 @@ func (n *tnode) render() string {
 		fmt.Fprintf(&b, "%s:%s->%s=%s/%s", n.Key, n.In, n.Out, n.Dyn, paraStr(n.Para))
 		if n.Lazy {
 			b.WriteString("/lazy")
+		}
+		if n.Conv != "" {
+			fmt.Fprintf(&b, "/conv-%s(%q,%q,%v)", n.Conv, n.TrigByte, n.TrigKey, n.TrigOther)
+		}
+		if n.Pre != "" {
+			fmt.Fprintf(&b, "/%s", n.Pre)
+			if n.Pre != "tolist" {
+				fmt.Fprintf(&b, "(%s,%s,%q)", paraStr(n.PrePara), n.MsgFrom, n.MsgPath)
+			}
 		}
 		if n.Dyn == dMap {
 			fmt.Fprintf(&b, "%v", n.Leaves)
@@ -217,6 +263,8 @@ func (r *rres) stopped() bool { return r.Fail != "" || r.Hazard != "" }
 // mechanism of the framework), most specific first; the signature carries the first one that
 // occurred in the run. The other events are only counted.
 var sitePriority = []string{
+	// (second coverage round) the mechanisms of typed_conv / typed_switch / typed_builtin
+	"lazy-converter-fires", "skipped-target-edge", "builtin-tolist", "builtin-msgparse", "builtin-msglist", "lazy-converter-passes",
 	"nil-at-fan-in", "nil-under-input-key", "nil-under-output-key", "nil-branch-input", "nil-mapped", "nil-at-END", "nil-node-input",
 }
 
@@ -258,6 +306,8 @@ type pend struct {
 	// and changes only where the framework converts (a run-time checked edge, a key wrapper, a
 	// mapping, a fan-in); a nested graph hands on whatever reached its END.
 	STy ty
+	// Skip: the producing node was not selected by the branch of a "switch" segment: nothing arrives
+	Skip bool
 }
 
 // got: what a consumer receives.
@@ -508,6 +558,9 @@ func (r *rres) consume(ps []pend, to ty, m *fmapSpec, join []string) got {
 	if join != nil {
 		merged := map[string]any{}
 		for i, p := range ps {
+			if p.Skip {
+				continue
+			}
 			if p.V == nil {
 				r.event("nil-mapped")
 			}
@@ -558,7 +611,7 @@ func (r *rres) runNode(n *tnode, g got, env refEnv) got {
 		if in == nil {
 			r.event("nil-into-nested")
 		}
-		sub := evalSpec(n.Sub, pend{in, n.In, multi, sty}, env)
+		sub := evalSpec(n.Sub, pend{V: in, Ty: n.In, Multi: multi, STy: sty}, env)
 		r.Execs += sub.Execs
 		for e := range sub.Events {
 			r.event(e)
@@ -584,7 +637,26 @@ func (r *rres) runNode(n *tnode, g got, env refEnv) got {
 			r.soft(hzChunksIface)
 		}
 		r.Execs++
+		if n.Conv != "" {
+			if convFires(n, in) {
+				r.event("lazy-converter-fires")
+				r.Fail = "converter-" + n.Conv
+				return got{}
+			}
+			r.event("lazy-converter-passes")
+		}
 		out = n.body(in)
+		if n.Pre != "" {
+			r.event("builtin-" + n.Pre)
+			if n.Pre != "tolist" {
+				// the value travels as JSON text inside a message
+				var err error
+				if out, err = jsonRoundTrip(out, n.Out); err != nil {
+					r.Fail = "harness: " + err.Error()
+					return got{}
+				}
+			}
+		}
 		sty = n.Out
 		if !(n.Dyn == dSame && n.Lazy && n.Para&pT != 0) {
 			// (an untyped nil may come as several nil chunks, which an output key turns into maps)
@@ -611,7 +683,16 @@ func (n *tnode) body(in any) any {
 }
 
 // pick: the target a branch condition chooses for v.
-func pickTarget(rule string, v any, k int) int {
+func pickTarget(sg *tseg, v any) int {
+	rule, k := sg.CondRule, len(sg.Nodes)
+	if rule == "type" {
+		for i, n := range sg.Nodes {
+			if n.Map == nil && dynOK(v, n.effIn()) {
+				return i
+			}
+		}
+		return 0
+	}
 	if rule == "nil" {
 		if isNilish(v) {
 			return 0
@@ -654,7 +735,7 @@ func (r *rres) segs(s *tspec, cur []pend, env refEnv) []pend {
 					out = r.runNode(n, g, env)
 				}
 			}
-			next = []pend{{out.V, oty, out.Multi, out.STy}}
+			next = []pend{{V: out.V, Ty: oty, Multi: out.Multi, STy: out.STy}}
 		case "par":
 			for _, n := range sg.Nodes {
 				var out got
@@ -664,7 +745,7 @@ func (r *rres) segs(s *tspec, cur []pend, env refEnv) []pend {
 						out = r.runNode(n, g, env)
 					}
 				}
-				next = append(next, pend{out.V, n.effOut(), out.Multi, out.STy})
+				next = append(next, pend{V: out.V, Ty: n.effOut(), Multi: out.Multi, STy: out.STy})
 			}
 		case "branch":
 			var out got
@@ -678,7 +759,7 @@ func (r *rres) segs(s *tspec, cur []pend, env refEnv) []pend {
 					if cur[0].Multi && isIface(sg.CondTy) {
 						r.soft(hzChunksIface)
 					}
-					n := sg.Nodes[pickTarget(sg.CondRule, cv, len(sg.Nodes))]
+					n := sg.Nodes[pickTarget(sg, cv)]
 					oty = n.effOut()
 					g := r.consume(cur, n.effIn(), nil, nil)
 					if !r.stopped() {
@@ -686,7 +767,9 @@ func (r *rres) segs(s *tspec, cur []pend, env refEnv) []pend {
 					}
 				}
 			}
-			next = []pend{{out.V, oty, out.Multi, out.STy}}
+			next = []pend{{V: out.V, Ty: oty, Multi: out.Multi, STy: out.STy}}
+		case "switch":
+			next = r.switchSeg(sg, cur, env)
 		}
 		if r.stopped() {
 			for i := range next {
